@@ -28,7 +28,7 @@ claim("C06", "exploration",
       "Trusts the reference replica-count model written from README section 'Handling links' and --help; root arguments are directories.",
       "proptest generation; oracle = reference replica-count model + metamorphic relation over root spellings", "DESIGN.md 4 C06")
 claim("C13", "exploration",
-      "Generated trees of 20-150 files; report body must be byte-identical across repetitions, 5-7 thread-pool specifications (incl. all pools of size 1 and 64 and 0=auto), root permutations and --stdin; 3 runs under schedule perturbation (the interposer yields or sleeps at pseudo-randomly chosen libc calls); a second generator checks order independence of the walk (small trees with file/directory symlinks and cycles, overlapping/repeated roots, -L/-S/--depth/--hidden/-H, --rf-over 0: identical body for permuted, reversed and --stdin roots and for size-1 and default pools); partition identical across hash functions, prefix/suffix sizes, pinned device kinds and cache; every run must exit - a run past the watchdog is a violation only when proven hung (no syscalls, no voluntary context switches, no children for 5 s), otherwise inconclusive (exit 2).",
+      "Generated trees of 20-150 files; report body must be byte-identical across repetitions, 5-7 thread-pool specifications (incl. all pools of size 1 and 64 and 0=auto), root permutations and --stdin; 3 runs under schedule perturbation (the interposer yields or sleeps at pseudo-randomly chosen libc calls), one run with 128-thread pools under prlimit --nofile=80; a second generator checks order independence of the walk (small trees with file/directory symlinks and cycles, overlapping/repeated roots, -L/-S/--depth/--hidden/-H, --rf-over 0: identical body for permuted, reversed and --stdin roots and for size-1 and default pools); partition identical across hash functions, prefix/suffix sizes, pinned device kinds and cache; every run must exit - a run past the watchdog is a violation only when proven hung (no syscalls, no voluntary context switches, no children for 5 s), otherwise inconclusive (exit 2).",
       "Hangs and order nondeterminism are only seen under schedules the OS produces during the run; watchdog 25 s vs ~20 ms normal run time.",
       "proptest generation; metamorphic oracle over tuning knobs, thread pools, root order, repetition; quiescence-based hang detection", "DESIGN.md 4 C13")
 claim("C14", "exploration",
@@ -41,19 +41,19 @@ claim("C02", "exploration",
       "Two open known findings (symlink under another isolate root retained as replica of its own target). Reflink success is unreachable on the sandbox file systems (refusal path only). Files carry old mtimes so the staleness guard is not in play (C04's business).",
       "proptest-generated scenarios driving the real binary; oracle = invariants over before/after inventories of the file system", "DESIGN.md 4 C02")
 claim("C08", "exploration",
-      "Generated groups (metacharacter/non-ASCII names, hard-link subsets, roots, controlled tied timestamps; a second generator makes groups of 20-48 replicas with more than 20 sub-groups) x priority lists over all 12 values, keep/drop globs from actual names, n explicit or inherited, isolate/-H explicit or inherited through text and JSON headers; the set of files a real run changes must equal the set computed by the reference keep/drop rule; separate clauses for keep patterns, drop patterns and sub-group atomicity.",
+      "Generated groups (metacharacter/non-ASCII names, hard-link subsets, roots, controlled tied timestamps; a second generator makes groups of 20-48 replicas with more than 20 sub-groups, a third uses hostile file names incl. invalid UTF-8; one report in six comes from `group --transform 'head -c 3'`, one scenario in five from `group --base-dir REL` run elsewhere, every second dedupe command is started in another directory) x priority lists over all 12 values, keep/drop globs from actual names, n explicit or inherited, isolate/-H explicit or inherited through text and JSON headers; the set of files a real run changes must equal the set computed by the reference keep/drop rule; separate clauses for keep patterns, drop patterns and sub-group atomicity.",
       "Reference rule written from --help/README; sub-groups whose members disagree on a sort key skip the exact comparison (undocumented aggregation); glob semantics from the reference matcher.",
       "proptest generation; oracle = reference model of the keep/drop rule compared with inventory diffs", "DESIGN.md 4 C08")
 claim("C11", "exploration",
-      "Generated scenarios as C02 (one report in five from `group --transform 'head -c 3'`, so that group members differ in size) x remove/link/link --soft/move: three dry runs with different rayon pool sizes plus one under schedule perturbation by the interposer must print identical scripts (modulo temp suffix) in report order; operations parsed from the script must equal the changes of a real run (set, kind, summary counts and bytes); a non-empty script sent to /dev/full must not exit 0; for remove/link/link --soft the script is executed by bash on an identically rebuilt tree and the resulting tree must equal the real run's (paths, types, bytes, symlink targets, hard-link partition).",
+      "Generated scenarios as C02 (one report in five from `group --transform 'head -c 3'`, so that group members differ in size) x remove/link/link --soft/move: three dry runs with different rayon pool sizes plus one under schedule perturbation by the interposer must print identical scripts (modulo temp suffix) in report order; operations parsed from the script must equal the changes of a real run (set, kind, summary counts and bytes); a non-empty script sent to /dev/full must not exit 0; --dry-run -o FILE over an older longer script must leave only the new script; for remove/link/link --soft the script is executed by bash on an identically rebuilt tree and the resulting tree must equal the real run's (paths, types, bytes, symlink targets, hard-link partition).",
       "Open known findings for --symbolic-links combined with --isolate / cross-device move. `dedupe` not compared (reflink unsupported here). atime-based priorities replaced (reads between runs change atimes).",
       "proptest generation; differential oracle: dry-run script vs real run vs bash execution of the script", "DESIGN.md 4 C11")
 claim("C18", "exploration",
-      "Generated scenarios x `move DIR` with DIR outside/inside the scanned tree, on tmpfs->ext4 (EXDEV copy fallback) and on a loop-mounted ext4 that fclones sees as another mount (copy path), absolute or relative, with obstacles planted from a dry run (colliding file, directory at destination, file at parent, dangling symlink); in a third of the cases the k-th mutating libc call (k=1..24) fails with EIO/ENOSPC/EPERM/EINVAL through the LD_PRELOAD interposer. Inventory oracle: pre-existing entries under DIR untouched, vanished sources complete at DIR/<abs path> which did not exist before, injective count, unmoved sources untouched with a warning.",
+      "Generated scenarios x `move DIR` with DIR outside/inside the scanned tree, on tmpfs->ext4 (EXDEV copy fallback) and on a loop-mounted ext4 that fclones sees as another mount (copy path), absolute or relative, with obstacles planted from a dry run (colliding file, directory at destination, file at parent, dangling symlink); in a third of the cases the k-th mutating libc call (k=1..24) fails with EIO/ENOSPC/EPERM/EINVAL through the LD_PRELOAD interposer; DIR is sometimes spelled `shelf/../dups` through a symlink. Inventory oracle: pre-existing entries under DIR untouched, vanished sources complete at DIR/<abs path> which did not exist before, injective count, unmoved sources untouched with a warning.",
       "One injected failure per run at a generated position (C05 enumerates every position); after an injected failure an incomplete copy may remain under DIR. Loop mount needs root; absent => those cases fall back to the plain ext4 target.",
       "proptest generation; oracle = invariants over before/after inventories", "DESIGN.md 4 C18")
 claim("C20", "exploration",
-      "Generated scenarios x all five operations x subsets of the intended files locked by the harness through open-file-description write or read locks on four byte ranges (whole file, beyond EOF, first byte, tail) x --no-lock on/off x locked files writable or read-only with fclones run without CAP_DAC_OVERRIDE (setpriv) x same-mount and cross-mount move targets. Locked files must be untouched with a warning; unlocked intended files must be processed; with --no-lock everything intended is processed.",
+      "Generated scenarios x all five operations x subsets of the intended files locked by the harness through open-file-description write or read locks on four byte ranges (whole file, beyond EOF, first byte, tail) x --no-lock on/off x locked files writable or read-only with fclones run without CAP_DAC_OVERRIDE (setpriv) x a directory without lock support (EOPNOTSUPP through the interposer) x a failing lstat of a locked file x same-mount and cross-mount move targets. Locked files must be untouched with a warning; unlocked intended files must be processed; with --no-lock everything intended is processed.",
       "OFD locks of the harness conflict with fclones' F_SETLK like a foreign process' lock; intention learnt from a dry run.",
       "proptest generation; oracle = inventory comparison against the dry-run intention under foreign locks", "DESIGN.md 4 C20")
 
@@ -67,21 +67,21 @@ claim("C16", "exploration",
       "bounded-exhaustive enumeration + proptest random generation; differential oracle against a reference glob matcher, and a conservativeness invariant; thorough tier adds a coverage-guided libFuzzer campaign (fuzz_glob, same oracles inside the target)", "DESIGN.md 4 C16")
 
 claim("C05", "fault_enumeration",
-      "For each generated scenario the complete sequence of mutating libc calls of the dedupe command is recorded under an LD_PRELOAD interposer (single rayon thread), then every position is re-executed on an identically rebuilt tree with a kill before it, a kill after it, the call failing with each applicable errno (2 in quick, all in thorough) and the pair (call fails, next call fails). State-based oracle per original file (original bytes at the path / untouched other replica / complete move target / exactly one temporary sibling after a kill or double fault), an untouched replica of every content, processed-count and warning checks. Complete over positions of each explored scenario; scenarios themselves are sampled.",
+      "For each generated scenario the complete sequence of mutating libc calls of the dedupe command is recorded under an LD_PRELOAD interposer (single rayon thread), then every position is re-executed on an identically rebuilt tree with a kill before it, a kill after it, the call (incl. the fd-based data copy, write and mode change on move targets) failing with each applicable errno (2 in quick, all in thorough) and the pair (call fails, next call fails). State-based oracle per original file (original bytes at the path / untouched other replica / complete move target / exactly one temporary sibling after a kill or double fault), an untouched replica of every content, processed-count and warning checks. Complete over positions of each explored scenario; scenarios themselves are sampled.",
       "Faults and kills happen at libc call boundaries; FICLONE success is emulated by the interposer (a model of a reflink file system, not fclones code); raw syscalls would escape the interposer (the import table shows none for file operations).",
       "fault enumeration: recorded call sequence x {kill before, kill after, errno, double fault} on proptest-generated scenarios; state-based oracle", "DESIGN.md 4 C05")
 claim("C07", "exploration",
-      "Generated trees x group with every transform I/O mode, --no-copy, --in-place, --cache (XDG_CACHE_HOME private / unset / empty / relative), -o, link options, working directory outside or inside the scanned tree, and helper programs that read all/part/none of the input, fail, never open $OUT, or rewrite the file they are given as $IN (only without --no-copy, where that is fclones' private copy), with the k-th mutating call below TMPDIR failing (ENOSPC/EIO) in a quarter of the $IN / --in-place cases; and all five dedupe operations with --dry-run. Strict inventory equality (paths, bytes, inodes, link counts, symlink targets, mtimes, modes), zero mutating libc calls below the scanned tree in the LD_PRELOAD trace of fclones and its children, and no fclones-* leftovers in TMPDIR.",
+      "Generated trees x group with every transform I/O mode, --no-copy, --in-place, --cache (XDG_CACHE_HOME private / unset / empty / relative), -o, link options, working directory outside or inside the scanned tree, and helper programs that read all/part/none of the input, fail, never open $OUT, or rewrite the file they are given as $IN (only without --no-copy, where that is fclones' private copy), with the k-th mutating call below TMPDIR failing (ENOSPC/EIO) in a quarter of the $IN / --in-place cases, TMPDIR unusable, or an additional scanned root named fclones-data inside TMPDIR; and all five dedupe operations with --dry-run. Strict inventory equality (paths, bytes, inodes, link counts, symlink targets, mtimes, modes), zero mutating libc calls below the scanned tree in the LD_PRELOAD trace of fclones and its children, and no fclones-* leftovers in TMPDIR.",
       "Mutations observed at libc level; helpers never write to $IN so any input change is fclones' own.",
       "proptest generation; oracle = inventory equality + system-call trace invariant (LD_PRELOAD interposer)", "DESIGN.md 4 C07")
 
 claim("C15", "fault_enumeration",
-      "Read-side libc calls (stat, lstat, open, n-th read, opendir, n-th readdir, readlink, FIEMAP) of a clean `group` run are recorded per tree entry; for every entry below the roots, every recorded occurrence and every applicable errno (EACCES, EIO, ENOENT) one run is made with that call failing, plus sampled pairs, the same n-th read failing in both files of every equal-length pair (also under --skip-content-hash), repeated roots, walk-time failures of the input paths themselves, and a second generator with ignore files on several levels, hidden names and symlinks. After a faulted --cache run the next fault-free run on the same cache must equal the clean run. Metamorphic oracle: report equals a clean run on the tree with the affected entry (file incl. its hard links, sub-tree, or not-yet-listed children) physically removed, in any admissible combination for tolerated metadata failures; exit 0; warning unless ENOENT; a file whose read failed is in no group.",
+      "Read-side libc calls (stat, lstat, open, n-th read, opendir, n-th readdir, readlink, FIEMAP) of a clean `group` run are recorded per tree entry; for every entry below the roots, every recorded occurrence and every applicable errno (EACCES, EIO, ENOENT) one run is made with that call failing, plus sampled pairs, the same n-th read failing in both files of every equal-length pair (also under --skip-content-hash), repeated roots, directory listings without entry types (DT_UNKNOWN through the interposer, so that every entry is lstat-ed), transforms that read the original file themselves ($IN --no-copy), walk-time failures of the input paths themselves, and a second generator with ignore files on several levels, hidden names and symlinks. After a faulted --cache run the next fault-free run on the same cache must equal the clean run. Metamorphic oracle: report equals a clean run on the tree with the affected entry (file incl. its hard links, sub-tree, or not-yet-listed children) physically removed, in any admissible combination for tolerated metadata failures; exit 0; warning unless ENOENT; a file whose read failed is in no group.",
       "Faults are injected at libc level by path and occurrence (schedule independent). Complete over the recorded calls of each explored scenario (occurrences capped at 6-8 per function and path); scenarios are sampled.",
       "fault enumeration over recorded read-side calls on proptest-generated scenarios; metamorphic oracle (faulted run == clean run without the entry)", "DESIGN.md 4 C15")
 
 claim("C04", "exploration",
-      "Generated histories: scenario tree; `group --threads 1` paused by the LD_PRELOAD interposer at a generated open-for-read (before a file's first read, between its prefix and content reads, after all hashing); 1-3 ordinary edits (same-length rewrite - also through a symlink that is itself a group member reported with -S -, other length, append, truncate, delete, recreate, replace by dir/symlink, touch) during the pause or after `group`, aimed mostly at members of reported groups; then remove/link/link --soft/move/dedupe; group and dedupe under independently drawn time zones. Oracle: every content present just before the dedupe run still exists afterwards and every processed file's current content is retained in an untouched file.",
+      "Generated histories: scenario tree; `group --threads 1` paused by the LD_PRELOAD interposer at a generated open-for-read (before a file's first read, between its prefix and content reads, after all hashing); 1-3 ordinary edits (same-length rewrite - also through a symlink that is itself a group member reported with -S -, other length, append, truncate, delete, recreate, replace by dir/symlink, touch) during the pause or after `group`, aimed mostly at members of reported groups; in a fifth of the cases the report is used twice (a first link --soft / link / remove), 15 % of the reports come from `group --transform cat`; then remove/link/link --soft/move/dedupe; group and dedupe under independently drawn time zones. Oracle: every content present just before the dedupe run still exists afterwards and every processed file's current content is retained in an untouched file.",
       "Edits kept >= 30 ms away from fclones' clock reads (tick-granular kernel mtimes); pause granularity is a libc call; mtime-preserving replacement excluded by statement.",
       "proptest-generated histories with schedule control (pause points) ; oracle = inventory invariants around the dedupe run", "DESIGN.md 4 C04")
 claim("C12", "exploration",
@@ -95,7 +95,7 @@ claim("C09", "exploration",
       "proptest generation; oracle = reference walk / selection model compared set-wise", "DESIGN.md 4 C09")
 
 claim("C19", "exploration",
-      "The real semaphore.rs is compiled against shuttle's Mutex/Condvar/Arc (import line swapped by harness/build.rs, build fails if the line is missing). Generated programs (0-2 permits, 2-4 threads x 1-3 steps of pair / owned-guard hand-off / release-only, 0-3 unsolicited notifications standing in for spurious wake-ups), deadlock-free for the abstract counting semaphore by construction, run under hundreds to thousands of random and PCT schedules each; 2-thread programs under exhaustive DFS (bounded). Oracle: holders <= permits at every acquire return, no deadlock (shuttle's detector), permit count restored at the end.",
+      "The real semaphore.rs is compiled against shuttle's Mutex/Condvar/Arc (import line swapped by harness/build.rs, build fails if the line is missing). Generated programs (0-2 permits, 2-4 threads x 1-3 steps of pair / owned-guard hand-off / release-only, 0-3 unsolicited notifications standing in for spurious wake-ups), deadlock-free for the abstract counting semaphore by construction, run under hundreds to thousands of random and PCT schedules each; 2-thread programs under exhaustive DFS (bounded). Oracle: holders <= permits at every acquire return, no deadlock (shuttle's detector), permit count restored at the end. End-to-end complement: the real binary with 128-thread pools under prlimit --nofile=80..96 and reads slowed down by the interposer must report every one of 120-150 identical files without EMFILE.",
       "Schedules are sampled except for the DFS tier of the smallest programs; shuttle's Condvar has no spurious wake-ups of its own. End-to-end complement: C13 runs the same code with size-1 pools under the OS scheduler.",
       "proptest-generated thread programs x shuttle-generated schedules (random, PCT, bounded DFS); oracle = counting-semaphore model invariants", "DESIGN.md 4 C19")
 
